@@ -36,6 +36,10 @@ def build(tree, S, protos):
     if k == "mux":
         return MultiplexForecaster([("m%d" % i, f) for i, f in enumerate(kids)],
                                    selected_forecaster="m%d" % (tree["sel"] - 1))
+    if k == "online":
+        from sktime.forecasting.online_learning._online_ensemble import OnlineEnsembleForecaster
+        return OnlineEnsembleForecaster([("m%d" % i, f) for i, f in enumerate(kids)],
+                                        ensemble_algorithm=stubs.C09WeightAlgorithm(len(kids)))
     if k == "stack":
         return StackingForecaster([("m%d" % i, f) for i, f in enumerate(kids)], final_regressor=Meta(tag="c09meta"))
     raise AssertionError(k)
@@ -133,7 +137,7 @@ def run(ctx):
             ctx.sample({"tree": cfg["tree"], "n": cfg["n"], "fh": cfg["fh"], "ups": cfg["ups"],
                         "expected_calls": [(e["ev"], e["who"], e["rep"], e["lo"], e["hi"]) for e in exp["events"]][:12],
                         "expected_return": exp["ret"]})
-    if kinds != {"ens", "pipe", "mux", "stack"}:
+    if kinds != {"ens", "pipe", "mux", "stack", "online"}:
         raise T.TLCError("vacuity: composite kinds emitted: %s" % kinds)
     # code -> spec: the recorded runs are validated by TLC with the C09 clauses re-evaluated on them
     sub = recs if not ctx.quick else recs[::3]
